@@ -174,6 +174,16 @@ class Boxes(Relation):
         b2 = reg.bounding_box
         ctx.check(fp(reg) == fp_reg and box_tuple(b1) == box_tuple(b2),
                   f'{cls} | bounding_box modifies the region or is not stable')
+        # a returned box is the caller's to edit (padding it in place): the
+        # region's box - and the box its masks carry - stay what they were
+        keep = box_tuple(b1)
+        b1.ixmin, b1.ixmax = b1.ixmin - 2, b1.ixmax + 3
+        b1.iymin, b1.iymax = b1.iymin - 1, b1.iymax + 4
+        ctx.check(box_tuple(reg.bounding_box) == keep
+                  and box_tuple(b2) == keep,
+                  f'{cls} | editing a returned bounding box changes the box '
+                  'the region reports next', f'{keep} -> '
+                  f'{box_tuple(reg.bounding_box)}')
         if cls == 'CompoundPixelRegion':
             bb = reg.bounding_box
             want = union_ref(rs)
